@@ -6,7 +6,7 @@ runs = {}
 logs = sorted(glob.glob(os.path.join(V, "seeded", "logs", "seedtest*.log")), key=lambda f: int(re.findall(r"(\d+)\.log", f)[0]))
 for f in logs:
     for l in open(f):
-        m = re.match(r"(C\d\d-\d) rc=(\d+) (\d+) violations; ?(.*)", l)
+        m = re.match(r"(?:SEEDTEST )?(C\d\d-\d+) (?:by=C\d\d )?rc=(\d+) (\d+) violations; ?(.*)", l)
         if not m:
             continue
         d, rc, n, rest = m.groups()
